@@ -15,6 +15,7 @@ from fractions import Fraction
 
 from ..oracles import c09_pad as O
 from . import _c09_gen as G
+from .. import layout as LY
 
 ID = "C09"
 LEVEL = "exploration"
@@ -111,6 +112,7 @@ def _cast(value, dtype):
 
 def _x(case):
     x = _tensor(case["x"], case["shape"], case["dtype"])
+    x = LY.relayout(x, case.get("layout") or LY.pick(x.numel(), x.dim(), len(str(case.get("fn")))))
     if case.get("noncontig") and x.dim() >= 2:
         x = x.transpose(0, 1).contiguous().transpose(0, 1)  # same values, strided layout
     return x
